@@ -83,6 +83,10 @@ class Search:
       nxt = []
       new_last = 0
       for results in self.ctx.pmap(self.fname, [{'paths': c, 'cfg': self.cfg} for c in chunks]):
+        if self.ctx.out_of_budget():
+          # stop inside the level: everything below this depth was covered completely, this level only in part
+          self.capped = 'budget inside depth %d (levels below it are complete)' % depth
+          break
         for r in results:
           if r['replay_mismatch']:
             self.replay_mismatches += 1
@@ -108,6 +112,8 @@ class Search:
                 self.samples.append([list(x) for x in self.seen[k1]])
               if depth < self.max_depth:
                 nxt.append((self.seen[k1], k1))
+      if self.capped:
+        break
       self.depth_done = depth
       frontier = nxt
       depth += 1
